@@ -15,13 +15,20 @@ import os
 import sys
 
 
+CR_TAIL = False
+
+
 def answer(line):
-    return b"<" + line.upper() + b">"
+    return b"<" + line.upper() + b">" + (b"\r" if CR_TAIL else b"")
 
 
 def main():
     args = sys.argv[1:]
     mode = args[0] if args else "eager"
+    global CR_TAIL
+    if mode.endswith("+cr"):      # answers end in a carriage return (before the newline)
+        CR_TAIL = True
+        mode = mode[:-3]
     log = None
     code = 0
     i = 1
